@@ -245,8 +245,7 @@ def gen_tdigest(rng, tier, extra):
         h += extra(0, "single-compressed", rng.randrange(2))
     cap = 4 * (2 * k + (30 if k < 30 else 10))
     n = rng.choice([1, 2, 5, 50, cap - 2, cap - 1, cap, cap + 1, 3 * cap + 7])
-    if tier == "quick":
-        n = min(n, 1500)
+    n = min(n, 1500 if tier == "quick" else 12000)      # keeps images below ~100 KB
     mode = rng.randrange(6)
     h.append("td.updn 0 %d %d %d" % (n, rng.randrange(1000), mode))
     h += extra(0, "buffered", 1)
